@@ -10,6 +10,7 @@ from .. import algotrace as AT
 from ..judge import judge
 from ..simrt import build_dcop
 from ..orchrt import OrchWorld
+from ..orchproto import ProtocolRecorder
 from pydcop.dcop.objects import AgentDef
 from pydcop.algorithms import AlgorithmDef, load_algorithm_module
 from pydcop.distribution.objects import Distribution
@@ -67,12 +68,17 @@ def simulated(hid, inst, kind, nagents, r):
     cg = pseudotree.build_computation_graph(dcop)
     algo = AlgorithmDef.build_with_default_param("dpop", {}, mode=dcop.objective)
     dist = distribution_for(kind, dcop, cg, r)
-    w = OrchWorld(dcop, algo, cg, dist, infinity=INFV, seed=r.randrange(10 ** 6))
-    w.boot_all(order=r, lazy=r.random() < 0.5)
-    stuck = w.solve()
+    rec = ProtocolRecorder([n.name for n in cg.nodes]).install()
+    try:
+        w = OrchWorld(dcop, algo, cg, dist, infinity=INFV, seed=r.randrange(10 ** 6))
+        w.boot_all(order=r, lazy=r.random() < 0.5)
+        stuck = w.solve()
+    finally:
+        rec.uninstall()
     if w.exc:
         stuck = (stuck or "") + " exception in %s handling %s: %s" % (w.exc[0][0], w.exc[0][3], w.exc[0][4])
-    return outcome(hid, inst, doms, dcop, w.orch, stuck, INFV), {"mode": "simulated", "dist": kind, "agents": nagents, "steps": dict(w.phase_steps)}
+    return outcome(hid, inst, doms, dcop, w.orch, stuck, INFV), {"mode": "simulated", "dist": kind, "agents": nagents, "steps": dict(w.phase_steps),
+                                                                   "proto": rec.record(hid, dist, over=not stuck, agents=list(dcop.agents))}
 
 
 def threaded(hid, inst, kind, nagents, r):
@@ -85,6 +91,7 @@ def threaded(hid, inst, kind, nagents, r):
     dist = distribution_for(kind, dcop, cg, r)
     old = sys.getswitchinterval()
     sys.setswitchinterval(r.choice([1e-6, 1e-5, 1e-4, 5e-3]))
+    rec = ProtocolRecorder([n.name for n in cg.nodes]).install()
     try:
         orch = run_local_thread_dcop(algo, cg, dist, dcop, INFV)
         stuck = ""
@@ -97,7 +104,11 @@ def threaded(hid, inst, kind, nagents, r):
             orch.stop()
     finally:
         sys.setswitchinterval(old)
-    return outcome(hid, inst, doms, dcop, orch, stuck, INFV), {"mode": "threads", "dist": kind, "agents": nagents}
+        rec.uninstall()
+    if orch.status == "TIMEOUT":
+        rec.ev.insert(0, {"e": "timeout"})      # (the timer belongs to the harness's call of run(): it may fire at any moment)
+    return outcome(hid, inst, doms, dcop, orch, stuck, INFV), {"mode": "threads", "dist": kind, "agents": nagents,
+                                                                 "proto": rec.record(hid, dist, over=not stuck, agents=list(dcop.agents))}
 
 
 def run(tier):
@@ -133,6 +144,23 @@ def run(tier):
         recs.append(rec)
     verdicts, jres = judge("Judge_C22", recs)
     v.add_tlc(jres, "outcomes of %d orchestrated solves judged against Dcop.tla (Judge_C22)" % len(recs))
+    # the orchestration protocol itself: Orchestration.tla model-checked for small configurations, and every run's event trace
+    # validated against it (Judge_Orch.tla: the run must be a behaviour of the specification)
+    from .. import tlc as T
+    for cfgname, consts in (("2 agents, 3 computations", dict(Agents={"a1", "a2"}, Comps={"x", "y", "z"}, HostOf='@[c \\in {"x", "y", "z"} |-> IF c = "x" THEN "a1" ELSE "a2"]', WithTimeout=True)),
+                            ("3 agents (one hosting nothing), 3 computations", dict(Agents={"a1", "a2", "a3"}, Comps={"x", "y", "z"}, HostOf='@[c \\in {"x", "y", "z"} |-> IF c = "z" THEN "a2" ELSE "a1"]', WithTimeout=False))):
+        ores = T.run("Orchestration", "SPECIFICATION Spec\nINVARIANT NothingRunsBeforeAllDeployed\nINVARIANT NothingDeployedBeforeAllRegistered\n"
+                                      "INVARIANT EndMeansDone\nINVARIANT StopOnlyAtTheEnd\n", consts=consts, workers=4, deadlock=True)
+        if ores.violated or ores.errors:
+            raise MachineryError("Orchestration.tla does not satisfy its own invariants: %s %s" % (ores.violated, ores.errors[:2]))
+        v.add_tlc(ores, "Orchestration.tla, all interleavings of the protocol events (%s)" % cfgname)
+    protos = [dict(meta[rec["id"]]["proto"], id=rec["id"]) for rec in recs]
+    pverd, pres = judge("Judge_Orch", protos)
+    v.add_tlc(pres, "event traces of %d orchestrated solves validated against Orchestration.tla (Judge_Orch)" % len(protos))
+    for rec in recs:
+        for clause in pverd[rec["id"]]:
+            verdicts[rec["id"]] = list(verdicts[rec["id"]]) + ["protocol_" + clause]
+    v.cov["protocol_events_validated"] = sum(len(p["ev"]) for p in protos)
     modes = {}
     for rec in recs:
         m = meta[rec["id"]]
@@ -145,7 +173,7 @@ def run(tier):
             v.violation({"clause": clause, "mode": m["mode"], "dist": m["dist"]},
                         "%s (%s, %s distribution on %d agents, shape %s): status %s, assignment %s, reported %s, stuck %r" % (
                             clause, m["mode"], m["dist"], m["agents"], m["inst"]["shape"], rec["status"], rec["asg"], rec["reported"], rec["stuck"]),
-                        {"inst": m["inst"], "meta": {k: x for k, x in m.items() if k != "inst"}, "outcome": rec})
+                        {"inst": m["inst"], "meta": {k: x for k, x in m.items() if k not in ("inst", "proto")}, "outcome": rec, "protocol_events": m["proto"]["ev"]})
         if not verdicts[rec["id"]] and len(rec["inst"]["vars"]) >= 4:
             v.sample({"shape": m["inst"]["shape"], "mode": m["mode"], "dist": m["dist"], "agents": m["agents"], "outcome": {k: rec[k] for k in ("status", "asg", "reported", "finished")}}, cap=3)
     v.cov["runs_by_mode_and_distribution"] = modes
@@ -153,7 +181,8 @@ def run(tier):
     v.cov["rule"] = ("TLC-drawn DCOPs over 17 shapes (unary, n-ary, parallel constraints, isolated variables, several components, cycles; own-value costs; "
                      "costs equal to the infinity value; min and max) x distributions oneagent / adhoc / gh_cgdp / random valid mappings on 1-3 agents, "
                      "solved with DPOP through the real orchestrator: simulated agent-step interleavings (seeded) and %d real-thread runs with perturbed "
-                     "switch interval; non-trivial = at least one constraint" % nthread)
+                     "switch interval; the protocol events of every run (registration, deploy, deployed, run, start, finish, stop, stopped, end) validated "
+                     "against Orchestration.tla; non-trivial = at least one constraint" % nthread)
     v.cov["trusted_base"] = ["TLC (Dcop.tla)", "vlib/orchrt.py + vlib/agentrt.py for the simulated runs (the thread runs use pyDCOP's own threads)"]
     v.assumptions = ["the result is read as commands/solve.py reads it: status and end_metrics() right after run() returns"]
     return v.finish()
